@@ -106,7 +106,7 @@ func genPath(r *Rng, s *jsonapi.Schema, o *Out) string {
 	}
 }
 
-var filterVals = []string{"", "label", "%5Cu0020%7Bx", "+%7Bx", "%20%7B%22f%22%3A1%7D", "%C2%A0%7Bx", "%09%7B", "x%7B", "%5Cu007ba", "%5Cu007b%22f%22", "a%26b", "a%23b", "a%5Cb", "a%22b", "a+b", "%7B%7D", "%7B", "a%25", "%7B%22f%22%3A%22name%22%2C%22o%22%3A%22%3D%22%2C%22v%22%3A%22x%26y%22%7D",
+var filterVals = []string{"", "label", "%5Cu0020%7Bx", "+%7Bx", "%20%7B%22f%22%3A1%7D", "%C2%A0%7Bx", "%09%7B", "x%7B", "%5Cu007ba", "%5Cu007b%22f%22", "%5Cu007bx", "%5Cu007b", "%5Cu007b%22a%22%3A1", "a%26b", "a%23b", "a%5Cb", "a%22b", "a+b", "%7B%7D", "%7B", "a%25", "%7B%22f%22%3A%22name%22%2C%22o%22%3A%22%3D%22%2C%22v%22%3A%22x%26y%22%7D",
 	"%7B%22o%22%3A%22and%22%2C%22v%22%3A%5B%7B%22f%22%3A%22n%22%2C%22o%22%3A%22%3C%22%2C%22v%22%3A1%7D%2C%7B%22o%22%3A%22or%22%2C%22v%22%3A%5B%5D%7D%5D%7D",
 	"%7B%22o%22%3A%22and%22%2C%22v%22%3A1%7D", "x%0Ay", "%E9",
 	"%7B%22f%22%3A%22name%22%2C%22o%22%3A%22%3D%22%2C%22v%22%3A%22a%FFb%22%7D", "ring%5Cu0007", "a%5Cu000bb", "a%7Fb", "%5Cu001f", "tab%5Ct", "nl%5Cn"} // the last six: control characters, which Go and JSON escape differently
@@ -463,9 +463,8 @@ func suiteURL(r *Rng, n int, thorough bool, o *Out) {
 		if u != nil {
 			lb, _ := json.Marshal(u.Params.FilterLabel)
 			labelBody = string(lb[1 : len(lb)-1])
-			if strings.HasPrefix(labelBody, "{") { // the label body as URL.String writes it
-				labelBody = "\\u007b" + labelBody[1:]
-			}
+			// handed over as json.Marshal wrote it: the rewrite of a leading '{' to \u007b that
+			// URL.String does is part of the model (rewriteBrace in Model/Url.lean)
 			dump = sxURL(u) // before String(), which sorts the field lists in place
 		}
 		op := lst("url", "parse", lst(tags...), sxSchema(s), hx(raw), sxParsed(raw), hx(labelBody))
